@@ -21,10 +21,7 @@ OPNAME = {1: 'addColumnsByConstant', 2: 'addColumns', 3: 'addSelection', 4: 'del
 BITS = {1: 'names-unique', 2: 'sizes', 4: 'uid-table', 8: 'name-designator', 16: 'roles', 32: 'role-counts',
         64: 'active-count', 128: 'column-designators', 256: 'role-postcondition', 512: 'frame'}
 # reason codes of Spec.why_not -> canonical key of the call site + circumstance, and the bits that circumstance explains
-REASON = {1: ('setLocatorByUID:index-beyond-count', 16 | 32 | 64 | 128 | 256),
-          2: ('setLocatorByUID:deleted-uid', 16 | 32 | 64 | 128 | 256),
-          3: ('setLocatorsByColIdx:loop-counter', 256),
-          4: ('setNameByColIdx:duplicate-name', 1 | 8 | 128)}
+REASON = {1: ('setLocatorByUID:index-beyond-count', 16 | 32 | 64 | 128 | 256)}
 INIT_OBS = [0, 0, 0, [], [], [], [], [], [], [[] for _ in range(NLOC)], [], [], [], [], [], []]
 
 def S(s): return [ord(c) for c in s]
@@ -54,26 +51,33 @@ class Shadow:
     def expand(self, pats):
         out = []
         for p in pats:
+            if p in self.names:
+                if p not in out: out.append(p)
+                continue
             for n in self.names:
                 if rmatch(n, p) and n not in out: out.append(n)
         return out
+    def rank(self, p):
+        if p in self.names: return self.names.index(p)
+        return next((i for i, x in enumerate(self.names) if rmatch(x, p)), -1)
+    def expand1(self, p):
+        return [p] if p in self.names else [n for n in self.names if rmatch(n, p)]
     def uids_basic(self, ns):
         out = []
         for n in ns:
-            c = next((i for i, x in enumerate(self.names) if rmatch(x, n)), -1)
+            c = self.rank(n)
             if c < 0: return []
             u = self.uid_of_col(c)
             if u < 0: return []
             out.append(u)
         return out
     def ids_name(self, p, one):
-        l = self.uids_basic([n for n in self.names if rmatch(n, p)])
+        l = self.uids_basic(self.expand1(p))
         return [] if one and len(l) != 1 else l
     def set_loc1(self, u, t, k):
         """returns reason code"""
-        if not (0 <= u < len(self.uidcol)): return 0
+        if not (0 <= u < len(self.uidcol)) or self.uidcol[u] < 0: return 0
         r = 0
-        if self.uidcol[u] < 0: r = 2
         for tt in range(NLOC):
             if u in self.loc[tt]: self.loc[tt].remove(u)
         if t >= 0:
@@ -142,7 +146,7 @@ class Shadow:
             for i in range(len(self.loc[o[1]]) - 1, -1, -1): self.del_uid(self.loc[o[1]][i])
             return 0
         if k == 9:
-            if not (0 <= o[1] < len(self.uidcol)): return 0
+            if not (0 <= o[1] < len(self.uidcol)) or self.uidcol[o[1]] < 0: return 0
             return self.set_locs([o[1]], o[2], o[3], o[4])
         if k == 10:
             if not (0 <= o[1] < self.ncol): return 0
@@ -153,9 +157,7 @@ class Shadow:
             return self.set_locs(l, o[2], o[3], o[4]) if l else 0
         if k == 12: return self.set_locs(o[1], o[2], o[3], o[4])
         if k == 13: return self.set_locs([o[2] + i for i in range(max(0, o[1]))], o[3], o[4], o[5])
-        if k == 14:
-            r = self.set_locs([self.uid_of_col(i) for i in range(len(o[1]))], o[2], o[3], o[4])
-            return r if (r or o[1] == list(range(len(o[1])))) else 3
+        if k == 14: return self.set_locs([self.uid_of_col(c) for c in o[1]], o[2], o[3], o[4])
         if k == 15:
             l = self.uids_basic(self.expand([unS(p) for p in o[1]]))
             return self.set_locs(l, o[2], o[3], o[4]) if l else 0
@@ -166,19 +168,14 @@ class Shadow:
             else: self.loc[b] = self.loc[b] + self.loc[a]; self.loc[a] = []
             return 0
         if k == 18:
-            if 0 <= o[1] < self.ncol:
-                n = unS(o[2]); r = 4 if n in self.names[:o[1]] + self.names[o[1] + 1:] else 0
-                self.names[o[1]] = n
-                return r
+            if 0 <= o[1] < self.ncol: self.set_name_at(o[1], unS(o[2]))
             return 0
         if k == 19:
             if 0 <= o[1] < len(self.uidcol) and self.uidcol[o[1]] >= 0: self.set_name_at(self.uidcol[o[1]], unS(o[2]))
             return 0
         if k == 20:
-            e = [n for n in self.names if rmatch(n, unS(o[1]))]
-            if e:
-                c = next(i for i, x in enumerate(self.names) if rmatch(x, e[0]))
-                self.set_name_at(c, unS(o[2]))
+            e = self.expand1(unS(o[1]))
+            if e: self.set_name_at(self.rank(e[0]), unS(o[2]))
             return 0
         if k == 21:
             if o[1] > 0: self.nech += o[1]
@@ -198,10 +195,8 @@ class Shadow:
             return 0
         if k == 29:
             for i, p in enumerate(o[1]):
-                e = [n for n in self.names if rmatch(n, unS(p))]
-                if e:
-                    c = next(j for j, x in enumerate(self.names) if rmatch(x, e[0]))
-                    self.names[c] = '%s.%d' % (unS(o[2]), i + 1)
+                e = self.expand1(unS(p))
+                if e: self.names[self.rank(e[0])] = '%s.%d' % (unS(o[2]), i + 1)
             self.correct_names(); return 0
         if k == 30:
             l = self.loc[o[1]]
@@ -221,13 +216,13 @@ class Gen:
     def __init__(self, rng, strict):
         self.rng = rng; self.strict = strict
         self.use_sel = rng.random() < .5
-        self.use_na = (not self.use_sel) if strict else True
-        if strict:
+        self.use_na = rng.random() < .6
+        if strict and rng.random() < .5:
             self.single = ['a', 'b', 'c']; self.multi = ['p', 'q']; self.targets = ['a', 'b', 'd', 'e']
         else:
             self.single = ['a', 'b', 'ab1', 'a11', 'a-1', 'a.1', 'z']; self.multi = ['a', 'p', 'z']
             self.targets = ['a', 'b', 'a.1', 'a-1', 'ab1', 'a.1.1', 'p-1', 'p.2']
-        self.types = [Z, Z, Z, X, F, V] + ([SEL, SEL] if self.use_sel or not strict else [])
+        self.types = [Z, Z, Z, X, F, V] + ([SEL, SEL] if self.use_sel else [])
     def val(self):
         r = self.rng
         if self.use_na and r.random() < .2: return []
@@ -282,7 +277,7 @@ class Gen:
             t = self.typ() if r.random() < .5 else -1
             return [2, [self.val() for _ in range(m)], S(r.choice(self.single)), t, self.index(sh, t) if r.random() < .5 else 0]
         if kind == 3:
-            if not (self.use_sel or not self.strict): return [21, r.choice([1, 2]), self.val()]
+            if not self.use_sel: return [21, r.choice([1, 2]), self.val()]
             n = sh.nech + (r.choice([0, 0, 0, 0, 1]))
             tab = [] if r.random() < .3 else [self.val() for _ in range(n)]
             return [3, tab, S(r.choice(['s', 's', 'sel', 'a']))]
@@ -296,7 +291,7 @@ class Gen:
             t = self.typ()
             if t < 0: clean = False
             k = self.index(sh, t)
-            if kind == 9: return [9, self.uid(sh, True) if self.strict else self.uid(sh), t, k, clean]
+            if kind == 9: return [9, self.uid(sh), t, k, clean]
             if kind == 10: return [10, self.col(sh), t, k, clean]
             return [11, S(self.existing_name(sh)), t, k, clean]
         if kind in (12, 13, 14, 15):
@@ -307,7 +302,7 @@ class Gen:
             if kind == 12: return [12, [self.uid(sh) for _ in range(m)], t, k, clean]
             if kind == 13: return [13, m, self.uid(sh), t, k, clean]
             if kind == 14:
-                cs = list(range(m)) if (self.strict or r.random() < .4) else [self.col(sh) for _ in range(m)]
+                cs = list(range(m)) if r.random() < .3 else [self.col(sh) for _ in range(m)]
                 return [14, cs, t, k, clean]
             return [15, [S(self.existing_name(sh)) for _ in range(m)], t, k, clean]
         if kind == 16: return [16, self.typ(False)]
@@ -338,16 +333,11 @@ class Gen:
                 if sh.ncol > 14 and o[0] in (1, 2, 3): continue
                 if not self.strict: break
                 t = sh.copy()
-                if t.apply(o) == 0 and self.strict_names_ok(t): break
+                if t.apply(o) == 0: break
             else:
                 o = [16, Z]
             sh.apply(o); ops.append(o)
         return ops
-    def strict_names_ok(self, sh):
-        """strict histories stay inside the hypotheses of C07_designators: no stored name matches another one as a pattern"""
-        for n in sh.names:
-            if '.' in n and sum(1 for m in sh.names if rmatch(m, n)) > 1: return False
-        return True
 
 # ----------------------------------------------------------------------------- evaluation
 def split_model_line(line):
@@ -397,9 +387,6 @@ def sel_has_na(ob):
 
 def make_key(op, reason, newbits, ob):
     if reason in REASON and (newbits & REASON[reason][1]): return REASON[reason][0]
-    if newbits & ~(8 | 128) == 0 and (newbits & 8) and any(46 in n for n in ob[4]) and len(set(map(tuple, ob[4]))) == len(ob[4]):
-        return 'name-designator:regex-dot'
-    if newbits == 64 and sel_has_na(ob): return 'getSampleNumber:undefined-selection'
     return '%s:%s' % (OPNAME.get(op[0], '?'), bitnames(newbits))
 
 def lowbit(b):
@@ -629,8 +616,8 @@ def run(ctx):
     ctx.cov['steps'] = nsteps; ctx.cov['disagreements'] = ndis; ctx.cov['invariant_breaches_seen'] = nbreach
     ctx.cov['rule'] = ('case = one operation history (1..60 public Db editing calls on an initially empty Db); after EVERY call 16 getter families are '
                        'compared textually with the extracted model and the invariant/postcondition/frame checks (extracted Coq) are evaluated; '
-                       '70% strict histories (inside the guards of C07_step and the hypotheses of C07_designators/C07_counts), 30% wild '
-                       '(locator index beyond count, deleted uids, arbitrary icols, colliding names, NA selections); distinct = distinct history text')
+                       '70% strict histories (inside the only guard left in C07_step: locator rank <= current count), 30% wild (rank beyond the '
+                       'count); both kinds use deleted uids, arbitrary icols, names colliding as patterns, NA selections; distinct = distinct history text')
     if not proofs_ok: proof_break_violation(ctx, found_input)
     # the case files of this run are large (every observation of every step) and every witness is stored,
     # self-contained, under replays/: do not leave them behind
